@@ -230,6 +230,8 @@ m("C01-h", "C01", "libwallet/src/internal/selection.rs", "\t\tlet remainder_chan
 
 m("C01-i", "C01", "libwallet/src/api_impl/foreign.rs", "\t\tlet parent_key_id = context.parent_key_id.clone();", "\t\tlet parent_key_id = w.parent_key_id();", "C01.R8")
 
+m("C01-j", "C01", "libwallet/src/internal/tx.rs", "\t// with amount_includes_fee the recipient amount is the requested amount less the fee\n\tslate.amount = amount;\n", "\tlet _ = amount;\n", "C01.R9")
+
 
 def for_property(prop):
     return [x for x in M if x["property"] == prop]
